@@ -40,8 +40,8 @@ P = {
          'known findings F4, F5, F6 (genuine partial updates) are reported and excluded from the discharged count; clocks are not protected state', '4 C15'),
  'C16': ('other', 'Deductive part: universe entry rule; price buffers for all real prices and window contents (window = last N of old ++ [p], other assets/lookbacks untouched, non-positive price rejected, unseen asset starts empty, capacity N+1 for momentum/volatility and N for SMA; asset/lookback configurations enumerated); SignalsCollection.update gives each signal exactly one observation per tracked asset = mid(dt), queried at dt; cadence once per business day at the close from the run loop. Signal numerics (pandas/numpy) by the bounded stand-in.',
          'numeric signal values bounded only', '4 C16'),
- 'C17': ('exploration', 'Statistics are pandas/numpy/transcendental: bounded stand-in against pure-Python definitions on business-day curves crossing month/year/ISO-week-53 boundaries; the drawdown loop is proved when its harness is present.',
-         'NOT proved', '4 C17'),
+ 'C17': ('other', 'Deductive part: the explicit high-water-mark loop of create_drawdowns for series of any length - after the loop hwm[j] is the running maximum of observations 0..j INCLUDING the first (integer-indexed array and range-loop cut by an invariant). Everything else (returns, aggregates, CAGR/Sharpe/Sortino, the vectorised drawdown ratio, duration, the two reporters) is pandas/numpy/transcendental: bounded stand-in against pure-Python definitions on business-day curves crossing month/year/ISO-week-53 boundaries.',
+         'all statistics except the high-water-mark loop are NOT proved (bounded)', '4 C17'),
  'C18': ('other', 'Order-insensitivity is built into the proofs (set iteration arbitrary, order ids opaque): batch sort key reads the direction only, order ids never compared/hashed. Cross-run / cross-interpreter identity is a statement about CPython: bounded stand-in (repeat runs, shared data source, PYTHONHASHSEED sweep).',
          'cross-interpreter identity bounded only', '4 C18'),
  'C19': ('proof', 'Universe membership (inclusive entry, None excluded, static list), single-signal alpha keys = universe at dt, fixed-weight identity, equal-weight values scale/N summing to scale (Lean const_sum), for dictionaries of any size.',
